@@ -5932,7 +5932,12 @@ class SQLCompiler(Compiled):
             imv_single_values_expr = rst(imv_single_values_expr)
 
         executemany_values = f"({imv_single_values_expr})"
-        statement = statement.replace(executemany_values, "__EXECMANY_TOKEN__")
+        # only the VALUES group itself is expanded: the same placeholder text
+        # may occur elsewhere in the statement, e.g. "coalesce(?, ?)" in an
+        # ON CONFLICT DO UPDATE SET clause of a two-column INSERT
+        statement = statement.replace(
+            f"VALUES {executemany_values}", "VALUES __EXECMANY_TOKEN__", 1
+        )
 
         # Use optional insertmanyvalues_max_parameters
         # to further shrink the batch size so that there are no more than
